@@ -134,9 +134,9 @@ theorem quotedLoop (s : Str) (hs : noEscBrace s) (p : Nat) :
     have hst : noEscBrace t := noEscBrace_tail _ _ hs
     have hne' : ∀ t', c :: t ≠ '{' :: '{' :: t' := fun t' e => by cases e; exact hne t' rfl rfl
     -- `escape` fails here
-    have h1 : ∀ p', matchStr ['{', '{'] ⟨p', (c :: quote t).tail⟩ = none := fun p' => quote_head t p'
-    have h2 : ∀ p', matchStr ['{', '{'] ⟨p', (c :: quote t).dropWhile isBs⟩ = none := by
-      intro p'
+    have h1 : (c :: quote t).head? = some '\\' → ∀ p', matchStr ['{', '{'] ⟨p', (c :: quote t).tail⟩ = none := fun _ p' => quote_head t p'
+    have h2 : (c :: quote t).head? = some '\\' → ∀ p', matchStr ['{', '{'] ⟨p', (c :: quote t).dropWhile isBs⟩ = none := by
+      intro _ p'
       by_cases hc : c = '\\'
       · subst hc
         have : ('\\' :: quote t).dropWhile isBs = (quote t).dropWhile isBs := by simp [List.dropWhile, isBs]
